@@ -5,13 +5,22 @@ import warnings
 
 ID = 'C08'
 LEVEL = 'other'
-TARGETS = [
-    'selfies/grammar_rules.py::next_atom_state',
-    'selfies/grammar_rules.py::next_branch_state',
-    'selfies/grammar_rules.py::next_ring_state',
-    'selfies/grammar_rules.py::get_index_from_selfies',
-    'selfies/decoder.py::_read_index_from_selfies',
-]
+TARGETS = ['selfies/grammar_rules.py::next_atom_state',
+           'selfies/grammar_rules.py::next_branch_state',
+           'selfies/grammar_rules.py::next_ring_state',
+           'selfies/grammar_rules.py::get_index_from_selfies',
+           'selfies/decoder.py::_read_index_from_selfies',
+           'selfies/mol_graph.py::MolecularGraph.__len__',
+           'selfies/mol_graph.py::MolecularGraph.get_atom',
+           'selfies/mol_graph.py::MolecularGraph.get_bond_count',
+           'selfies/mol_graph.py::MolecularGraph.has_bond',
+           'selfies/mol_graph.py::MolecularGraph.get_dirbond',
+           'selfies/mol_graph.py::MolecularGraph.add_atom',
+           'selfies/mol_graph.py::MolecularGraph.add_bond',
+           'selfies/mol_graph.py::MolecularGraph.add_ring_bond',
+           'selfies/mol_graph.py::MolecularGraph.update_bond_order',
+           'selfies/utils/smiles_utils.py::smiles_to_bond',
+           'selfies/utils/smiles_utils.py::bond_to_smiles']
 EXPLANATION = (
     "Mixed. PROVED: exception-freedom obligations (index in range, key present, None receivers, asserts, unpack "
     "arity, division by zero) generated at every raising operation of the functions under contract listed in "
